@@ -415,6 +415,18 @@ func (c *Ctx) orderInsensitive(li loopInfo) (bool, string) {
 					}
 					continue
 				}
+				// out[i] = f(in[i]) with i this loop's own index and out a slice made before the loop: an order-preserving
+				// map of the input; what matters is what later consumes `out` (same rule as for an appended slice)
+				if ia, ok := x.Addr.(*ssa.IndexAddr); ok && (c.rangeIndex(ia.Index) || (li.idx != nil && ia.Index == ssa.Value(li.idx))) {
+					if ms, isMake := ia.X.(*ssa.MakeSlice); isMake && !li.body[ms.Block()] {
+						if ok2, why := c.valueConsumedOrderInsensitivelyAfter(fn, ms, li); ok2 {
+							notes = append(notes, "element-wise fill of a slice that is consumed order-insensitively")
+							continue
+						} else {
+							return false, fmt.Sprintf("slice filled in iteration order at %s and %s", c.P.Pos(x.Pos()), why)
+						}
+					}
+				}
 				return false, fmt.Sprintf("store to shared memory at %s in iteration order", c.P.Pos(x.Pos()))
 			case *ssa.MapUpdate:
 				if dependsOnPhi(x.Key, nil) {
@@ -1052,6 +1064,49 @@ func (c *Ctx) valueConsumedOrderInsensitively(fn *ssa.Function, v ssa.Value) (bo
 				continue
 			}
 			return false, "it is handed to " + calleeShort(call)
+		}
+		return false, fmt.Sprintf("it is used by %T", ref)
+	}
+	return uses > 0, "it is not consumed"
+}
+
+// valueConsumedOrderInsensitivelyAfter: like valueConsumedOrderInsensitively, ignoring the uses of v inside loop li (the
+// element stores that fill it).
+func (c *Ctx) valueConsumedOrderInsensitivelyAfter(fn *ssa.Function, v ssa.Value, li loopInfo) (bool, string) {
+	uses := 0
+	for _, ref := range *v.Referrers() {
+		if _, isDbg := ref.(*ssa.DebugRef); isDbg {
+			continue
+		}
+		if li.body[ref.Block()] {
+			if _, isIdx := ref.(*ssa.IndexAddr); isIdx {
+				continue
+			}
+		}
+		if isRangeUse(ref) {
+			for _, l2 := range rangeLoops(fn) {
+				if l2.kind == "slice" && l2.rng == v {
+					if ok, why := c.orderInsensitive(l2); !ok {
+						return false, "the loop that consumes it is order-dependent: " + why
+					}
+					uses++
+				}
+			}
+			continue
+		}
+		if call, ok := ref.(*ssa.Call); ok {
+			if b, isB := call.Call.Value.(*ssa.Builtin); isB && (b.Name() == "len" || b.Name() == "cap") {
+				continue
+			}
+			f := call.Call.StaticCallee()
+			if f != nil && (len(core.StoreSites(f)) > 0 || c.reachesDagpbStore(f)) {
+				uses++
+				continue
+			}
+			return false, "it is handed to " + calleeShort(call)
+		}
+		if _, isIdx := ref.(*ssa.IndexAddr); isIdx {
+			return false, "it is indexed outside the filling loop"
 		}
 		return false, fmt.Sprintf("it is used by %T", ref)
 	}
